@@ -1,3 +1,4 @@
+#include <sys/syscall.h>
 // simwasi ops: executes one WASI operation against the real wasi.c (through the generated wasihost module) and the
 // corresponding POSIX operation against the mirror tree, and compares.
 #pragma once
@@ -259,19 +260,34 @@ static void op_rw(const Op& op) {
     if (miov.empty()) { struct iovec v; v.iov_base = (void*)""; v.iov_len = 0; miov.push_back(v); }
     ssize_t mr = 0; int merr = 0;
     const std::string& f = op.fault;
+    size_t seg_cut = SIZE_MAX;
+    if (fired && g_nouio && f != "lseek_fail") {
+        // fault injected at one segment's read()/write() inside the SUT's own vector emulation: an interrupted call may be retried, an
+        // error after a partial transfer yields the partial count. Whatever count is reported, exactly that prefix must have been moved.
+        if (r != 0) {
+            int want = f.compare(0, 5, "eintr") == 0 ? 27 : f == "enospc_write" ? 51 : 29;
+            if ((int)r == want) { check_position(op, fd, nm); return; }
+            // another error: judged like an un-faulted call (the kernel reports it on the mirror too, e.g. EBADF for a write-only file)
+        } else {
+            size_t total = 0; for (uint32_t l : op.iov) total += l;
+            if (ld32(rp) > total) { V("count", nm + ":after-" + f, "reported " + std::to_string(ld32(rp)) + " of " + std::to_string(total) + " bytes"); return; }
+            seg_cut = ld32(rp);
+        }
+    } else
     if (fired && (f == "eintr_write" || f == "eintr_read" || f == "eio_write" || f == "eio_read" || f == "enospc_write" || f == "lseek_fail")) {
         int want = f.compare(0, 5, "eintr") == 0 ? 27 : f == "enospc_write" ? 51 : 29;
         if ((int)r != want) V("errno", nm + ":injected-" + f + "-not-reported", "returned " + std::to_string(r) + " expected " + std::to_string(want));
         check_position(op, fd, nm);
         return;
     }
-    size_t cut = (fired && (f == "short_write" || f == "short_read")) ? (size_t)op.fault_param : SIZE_MAX;
+    size_t cut = seg_cut != SIZE_MAX ? seg_cut : (fired && (f == "short_write" || f == "short_read")) ? (size_t)op.fault_param : SIZE_MAX;
     {
         std::vector<struct iovec> c; size_t left = cut;
         for (auto v : miov) { if (left == 0 && cut != SIZE_MAX) break; if (v.iov_len > left) v.iov_len = left; left -= std::min(left, v.iov_len); c.push_back(v); }
         if (c.empty()) { struct iovec v; v.iov_base = (void*)""; v.iov_len = 0; c.push_back(v); }
-        if (wr) mr = pos ? pwritev(e->mfd, c.data(), (int)c.size(), (off_t)off) : __real_writev(e->mfd, c.data(), (int)c.size());
-        else mr = pos ? preadv(e->mfd, c.data(), (int)c.size(), (off_t)off) : __real_readv(e->mfd, c.data(), (int)c.size());
+        // the reference is the kernel's own vector I/O (not whatever 'readv' resolves to in this link: the build without <sys/uio.h> has the SUT's emulation there)
+        if (wr) mr = pos ? pwritev(e->mfd, c.data(), (int)c.size(), (off_t)off) : syscall(SYS_writev, e->mfd, c.data(), (int)c.size());
+        else mr = pos ? preadv(e->mfd, c.data(), (int)c.size(), (off_t)off) : syscall(SYS_readv, e->mfd, c.data(), (int)c.size());
         merr = mr < 0 ? errno : 0;
     }
     std::string ctx = "fd " + std::to_string(fd) + " iov " + std::to_string(niov) + (pos ? " offset " + std::to_string(off) : "");
